@@ -31,6 +31,10 @@ pub struct Octree {
     /// This is indexed by cell leaf index; the exact shape depends heavily on
     /// the number of intersections and vertices within each leaf.
     pub(crate) verts: Vec<CellVertex<3>>,
+
+    /// True if the vertices were mapped to model space by a transform with a
+    /// negative determinant, which reverses the orientation of every triangle
+    pub(crate) mirrored: bool,
 }
 
 impl Octree {
@@ -40,6 +44,7 @@ impl Octree {
             root: Cell::Invalid,
             cells: vec![],
             verts: vec![],
+            mirrored: false,
         }
     }
 
@@ -62,6 +67,9 @@ impl Octree {
                 let q = settings.world_to_model.transform_point(&p);
                 v.pos = q.coords;
             }
+            // A mirroring transform turns the mesh inside-out, so remember
+            // to flip the triangles' winding in `walk_dual`
+            out.mirrored = settings.world_to_model.determinant() < 0.0;
         }
         Some(out)
     }
@@ -216,7 +224,13 @@ impl Octree {
         let mut mesh = MeshBuilder::default();
 
         mesh.cell(self, CellIndex::default());
-        mesh.take()
+        let mut out = mesh.take();
+        if self.mirrored {
+            for t in &mut out.triangles {
+                t.swap_rows(1, 2);
+            }
+        }
+        out
     }
 
     pub(crate) fn is_leaf(&self, cell: CellIndex<3>) -> bool {
